@@ -6,12 +6,12 @@ from props import grammar_oracle as go
 
 ID = "C17"
 LEVEL = "exploration"
-SIDECARS = ["contracts.arch", "contracts.mapping_c17"]
-TARGETS = ["Architecture.__init__", "Mapping.__init__"]
+SIDECARS = ["contracts.arch", "contracts.mapping_c17", "contracts.eqparse"]
+TARGETS = ["Architecture.__init__", "Mapping.__init__", "EquationParser.parse"]
 TECHNIQUE = ("bounded: strings derived from the five grammars within a size bound (and near-miss strings) through the "
              "real public parsers, read back by an independent extractor; contracts (SMT) only for the post-grammar code: "
              "per-visit lemma of Architecture.__init__ (N+1 instance count), per-entry lemma of Mapping.__init__ "
-             "(directives reach the parser as written)")
+             "(directives reach the parser as written), per-visit lemmas of EquationParser.parse (sign folding, empty ranks)")
 EXPLANATION = (
     "Acceptance is decided by lark's Earley parser over grammar string literals: there is no teaal function whose "
     "body decides it, so no contract within reach expresses the grammar half; it is served by a BOUNDED check. "
@@ -24,7 +24,9 @@ EXPLANATION = (
     "each level dictionary it visits gets name and num (1 for NAME, N + 1 for NAME[0..N]) from the name it carried "
     "when visited, whatever was visited before; and of Mapping.__init__: the directive list stored for an entry is "
     "PartitioningParser.parse_partitioning of each directive string as written, in order (nothing cached or re-keyed "
-    "between the YAML text and the parser); the traversal itself and dictionaries shared through YAML aliases are "
+    "between the YAML text and the parser); and of EquationParser.parse's normalisation: a `ranks` node visited never "
+    "keeps the lone None child of empty brackets, and an `itimes` node's coefficient becomes one token whose integer is "
+    "+n for pos(n) and -n for neg(n); the traversal itself and dictionaries shared through YAML aliases are "
     "served by a bounded architecture-tree family.")
 TRUSTED = ["the independent extractor below"]
 ASSUMPTIONS = ["bounded: enumerated structures; whitespace randomised by VERIF_SEED"]
